@@ -55,6 +55,11 @@ let handle id kind fields =
     res_line id (run_elbbox (cs n) (parse_attrs a)) (function Some bb -> show_bb bb | None -> "none")
   | "xfrm", [t; bb] -> res_line id (run_xfrm (cs t) (parse_bb bb)) show_bb
   | "resolve", [n; a; o] -> res_line id (run_resolve (cs n) (parse_attrs a) (parse_els o)) show_attrs
+  | "textstr", [s] -> Printf.printf "%s\tOK\t%s\n" id (hs (run_textstring (cs s)))
+  | "textattr", [n; a] ->
+    res_line id (run_textattr (cs n) (parse_attrs a))
+      (fun (orig, ts) -> show_attrs orig ^ "\t" ^
+                         String.concat ";" (List.map (fun ((n, a), c) -> hs n ^ "|" ^ show_attrs a ^ "|" ^ hs c) ts))
   | "xmlpass", [d] ->
     (match passthrough_doc (cs d) with
      | Some (Some o) -> Printf.printf "%s\tOK\t%s\n" id (hs o)
